@@ -36,7 +36,8 @@ type SliceV struct {
 	Base     []Value // whole backing array; nil for nil slice
 	Off      int
 	Len, Cap int
-	NonNil   bool // distinguishes empty non-nil from nil
+	NonNil   bool  // distinguishes empty non-nil from nil
+	SymLen   *Term // if non-nil the length is this 64-bit term (0 <= SymLen <= Cap by the path condition) and Len == Cap
 }
 
 func (s SliceV) IsNil() bool { return s.Base == nil && !s.NonNil }
